@@ -312,6 +312,9 @@ type replayFile struct {
 }
 
 func writeReplay(vd, prop string, o *Obligation) string {
+	if os.Getenv("SPECVET_NOREPLAY") != "" {
+		return "-"
+	}
 	dir := filepath.Join(vd, "replay")
 	os.MkdirAll(dir, 0o755)
 	h := sha1.Sum([]byte(prop + o.FullKey()))
